@@ -3,8 +3,10 @@ package main
 import (
 	"fmt"
 	"math"
+	"math/big"
 	"os"
 	"strconv"
+	"unicode"
 
 	"golang.org/x/perf/benchunit"
 	"verifharness/internal/hx"
@@ -14,7 +16,7 @@ func init() { gens["C10"] = genC10 }
 
 // Case kinds (first element of the case term):
 //
-//	0 tables   (0 cls ((b (prec factor prefix) (prec factor prefix)) ...))   change points of v -> CommonScale([v], cls), read back through behaviour
+//	0 tables   (0 cls (((b (prec factor prefix) (prec factor prefix)) (strAt strBelow)) ...))   change points of v -> CommonScale([v], cls), read back through behaviour, with Scale() of the value at and just below each
 //	1 common   (1 cls (vals...) scalerOpt (strs...) scaleStrOpt sameAsMin)  CommonScale + Format of every value
 //	2 format   (2 prec factor prefix v ((qbits shortest)...) out)          Scaler.Format with an arbitrary Scaler (incl. NoOpScaler)
 //	3 classof  (3 unit cls)
@@ -131,6 +133,173 @@ func c10RecipeThresholds(cls int) []float64 {
 	return ts
 }
 
+// ---- known findings, recognised from the input alone ----
+//
+// The harness works out, without the code under test, the scale of the least
+// non-zero magnitude by the documented recipe (thresholds = ParseFloat of the
+// printed boundary; below the smallest prefix the quotient against the sigfigs
+// thresholds) and then simulates the mechanism of the finding on every value:
+// the decimal strconv prints for the binary64 quotient v / Factor, compared in
+// exact arithmetic (math/big) with the value.
+
+// c10SpecScale: precision and exponent (power of ten resp. two) of the scale of
+// min > 0, finite.
+func c10SpecScale(min float64, cls int) (prec, exp int) {
+	if cls == 0 {
+		for exp = 12; exp >= -9; exp -= 3 {
+			for i, m := range []string{"99.995", "9.9995", ".99995"} {
+				t, _ := strconv.ParseFloat(fmt.Sprintf("%se%d", m, exp), 64)
+				if min >= t {
+					return i + 1, exp
+				}
+			}
+		}
+		exp = -9
+	} else {
+		for exp = 40; exp >= 0; exp -= 10 {
+			for i, m := range []float64{0x1.8ffae147ae148p6, 0x1.3ffbe76c8b439p3, 0x1.fff972474538fp-1} {
+				if min >= math.Ldexp(m, exp) {
+					return i + 1, exp
+				}
+			}
+		}
+		exp = 0
+	}
+	val := min / c10Factor(cls, exp)
+	for i := 0; i < 8; i++ {
+		t, _ := strconv.ParseFloat(fmt.Sprintf("9.9995e%d", -1-i), 64)
+		if val >= t || i == 7 {
+			return i + 3, exp
+		}
+	}
+	panic("unreachable")
+}
+
+func c10Factor(cls, exp int) float64 {
+	if cls == 0 {
+		return math.Pow(10, float64(exp))
+	}
+	return math.Ldexp(1, exp)
+}
+
+// the exact factor 10^exp resp. 2^exp
+func c10ExactFactor(cls, exp int) *big.Rat {
+	base := int64(10)
+	if cls != 0 {
+		base = 2
+	}
+	n := exp
+	if n < 0 {
+		n = -n
+	}
+	pw := new(big.Int).Exp(big.NewInt(base), big.NewInt(int64(n)), nil)
+	if exp < 0 {
+		return new(big.Rat).SetFrac(big.NewInt(1), pw)
+	}
+	return new(big.Rat).SetInt(pw)
+}
+
+// c10QuotientRounded: known finding C10_quotient_rounded_before_printing. Some
+// finite value of vals, scaled with the scale of the least non-zero magnitude,
+// has a finite binary64 quotient v / Factor whose prec-digit decimal, times the
+// exact factor, is more than half a unit of the last digit away from v.
+func c10QuotientRounded(vals []float64, cls int) bool {
+	if cls != 0 && cls != 1 {
+		return false
+	}
+	min := 0.0
+	for _, v := range vals {
+		if v != v {
+			return false
+		}
+		if a := math.Abs(v); a != 0 && (min == 0 || a < min) {
+			min = a
+		}
+	}
+	if min == 0 || math.IsInf(min, 0) {
+		return false
+	}
+	prec, exp := c10SpecScale(min, cls)
+	f := c10Factor(cls, exp)
+	F := c10ExactFactor(cls, exp)
+	half := new(big.Rat).SetFrac(big.NewInt(1), new(big.Int).Mul(big.NewInt(2), new(big.Int).Exp(big.NewInt(10), big.NewInt(int64(prec)), nil)))
+	half.Mul(half, F)
+	for _, v := range vals {
+		q := v / f
+		if math.IsInf(v, 0) || math.IsInf(q, 0) {
+			continue
+		}
+		printed, ok := new(big.Rat).SetString(strconv.FormatFloat(q, 'f', prec, 64))
+		if !ok {
+			continue
+		}
+		d := printed.Mul(printed, F)
+		d.Sub(d, new(big.Rat).SetFloat64(v))
+		if d.Abs(d).Cmp(half) > 0 {
+			return true
+		}
+	}
+	return false
+}
+
+// tokens of a unit in its numerator, by the documented grammar: separators are
+// '*', '/', '-' and white space; after '/' the denominator, after '*' the
+// numerator again.
+func c10NumeratorTokens(unit string) []string {
+	var toks []string
+	denom := false
+	cur := ""
+	flush := func() {
+		if cur != "" && !denom {
+			toks = append(toks, cur)
+		}
+		cur = ""
+	}
+	for _, c := range unit { // invalid UTF-8 ranges as U+FFFD, no separator
+		switch {
+		case c == '*':
+			flush()
+			denom = false
+		case c == '/':
+			flush()
+			denom = true
+		case c == '-' || unicode.IsSpace(c):
+			flush()
+		default:
+			if c == unicode.ReplacementChar {
+				cur += "\xff" // any non-token byte; only equality with ASCII tokens matters
+			} else {
+				cur += string(c)
+			}
+		}
+	}
+	flush()
+	return toks
+}
+
+var c10ByteSpellings = func() map[string]bool {
+	m := map[string]bool{"byte": true, "bytes": true, "Byte": true, "Bytes": true}
+	for _, p := range []string{"", "k", "K", "M", "G", "T", "P", "E", "Ki", "Mi", "Gi", "Ti", "Pi", "Ei"} {
+		m[p+"B"] = true
+	}
+	return m
+}()
+
+// c10ClassSpelling: known finding C10_classof_byte_spellings. The numerator has
+// a token that names bytes, but none spelled B, MB or bytes.
+func c10ClassSpelling(unit string) bool {
+	wide, narrow := false, false
+	for _, t := range c10NumeratorTokens(unit) {
+		if c10ByteSpellings[t] {
+			wide = true
+		}
+		if t == "B" || t == "MB" || t == "bytes" {
+			narrow = true
+		}
+	}
+	return wide && !narrow
+}
+
 func c10Scale(val float64, cls int) (s string, ok bool) {
 	defer func() {
 		if r := recover(); r != nil {
@@ -170,6 +339,11 @@ func c10CommonCase(o *hx.Out, vals []float64, cls int, note string, tags ...stri
 	if overflow {
 		// known finding: a finite value whose quotient by the shared sub-unit factor overflows prints as +Inf
 		tags = append(tags, "C10_shared_scale_quotient_overflow")
+	}
+	if c10QuotientRounded(vals, cls) {
+		// known finding: the decimal of the rounded binary64 quotient is more than half a unit off
+		tags = append(tags, "C10_quotient_rounded_before_printing")
+		o.Count("common:quotient-rounding-shows")
 	}
 	scaleStr := hx.L()
 	if len(vals) == 1 {
@@ -223,7 +397,13 @@ func c10ClassCase(o *hx.Out, unit string) {
 	coq := hx.L(hx.I(3), hx.S(unit), hx.I(int(c)))
 	o.Count("kind=classof")
 	o.Count(fmt.Sprintf("classof:%v", c))
-	o.Add(coq, in, "u"+unit, len(unit) > 0)
+	var tags []string
+	if c10ClassSpelling(unit) {
+		// known finding: bytes in the numerator spelled otherwise than B, MB, bytes
+		tags = append(tags, "C10_classof_byte_spellings")
+		o.Count("classof:bytes-spelled-otherwise")
+	}
+	o.Add(coq, in, "u"+unit, len(unit) > 0, tags...)
 }
 
 func c10Ulps(f float64, d int64) float64 {
@@ -279,13 +459,28 @@ func genC10(o *hx.Out, r *hx.Rng, tier string, replay string) error {
 		for _, b := range cps {
 			sa, _ := c10Common([]float64{math.Float64frombits(b)}, cls)
 			sb, _ := c10Common([]float64{math.Float64frombits(b - 1)}, cls)
-			rows = append(rows, hx.L(hx.U(b), sa.sx(), sb.sx()))
+			strOpt := func(v float64) hx.Sx {
+				if str, ok := c10Scale(v, cls); ok {
+					return hx.L(hx.S(str))
+				}
+				return hx.L()
+			}
+			rows = append(rows, hx.L(hx.L(hx.U(b), sa.sx(), sb.sx()),
+				hx.L(strOpt(math.Float64frombits(b)), strOpt(math.Float64frombits(b-1)))))
 			hexs = append(hexs, fmt.Sprintf("%016x", b))
 			centres[cls] = append(centres[cls], math.Float64frombits(b))
 		}
 		o.Count("kind=tables")
 		o.Extra[fmt.Sprintf("change_points_class%d", cls)] = len(cps)
-		o.Add(hx.L(hx.I(0), hx.I(cls), hx.List(rows)), c10Input{Kind: "tables", Class: cls, Vals: hexs}, fmt.Sprintf("tables%d", cls), true)
+		var ttags []string
+		for _, b := range cps {
+			// a change point next to a decimal tie of the scale below it can itself show the
+			// rounding of the quotient (Decimal: 9.9995e-16 prints as 0.0000009999n)
+			if c10QuotientRounded([]float64{math.Float64frombits(b)}, cls) || c10QuotientRounded([]float64{math.Float64frombits(b - 1)}, cls) {
+				ttags = []string{"C10_quotient_rounded_before_printing"}
+			}
+		}
+		o.Add(hx.L(hx.I(0), hx.I(cls), hx.List(rows)), c10Input{Kind: "tables", Class: cls, Vals: hexs}, fmt.Sprintf("tables%d", cls), true, ttags...)
 		centres[cls] = append(centres[cls], c10RecipeThresholds(cls)...)
 	}
 
@@ -408,6 +603,80 @@ func genC10(o *hx.Out, r *hx.Rng, tier string, replay string) error {
 	c10CommonCase(o, []float64{1e-9, 1e299}, 0, "near-overflow")
 	c10CommonCase(o, []float64{1e-9, -1.7e299}, 0, "near-overflow")
 
+	// the classes below draw from a stream of their own, so that the cases of the
+	// older classes stay what they were for a seed
+	rq := hx.NewRng(r.Seed() ^ 0x5851f42d4c957f2d)
+	// (1c') decimal near-ties: the binary64 next to x.xxx5 / xx.xx5 / xxx.x5 times
+	// every prefix, +-2 ulps.  Under m, micro, n the rounding of the quotient shows on
+	// some of them (known finding C10_quotient_rounded_before_printing); under
+	// k M G T, no prefix and the binary prefixes never (controls).
+	nnear := 60
+	if thorough {
+		nnear = 1500
+	}
+	for cls := 0; cls <= 1; cls++ {
+		exps := []int{12, 9, 6, 3, 0, -3, -6, -9}
+		if cls == 1 {
+			exps = []int{40, 30, 20, 10, 0}
+		}
+		for _, e := range exps {
+			for i := 0; i < nnear; i++ {
+				n := rq.Range(1000, 9999)
+				p := rq.Intn(3)
+				m := (float64(n)*10 + 5) / math.Pow(10, float64(4-p))
+				v := c10Ulps(m*c10Factor(cls, e), int64(rq.Intn(5))-2)
+				if rq.Chance(0.2) {
+					v = -v
+				}
+				c10CommonCase(o, []float64{v}, cls, "near-tie")
+			}
+		}
+	}
+	// the auditor's witnesses
+	for _, v := range []float64{0.10105, 0.010005, 0.10025, 0.010045, 0.0010085, 0.10125} {
+		c10CommonCase(o, []float64{v}, 0, "near-tie-witness")
+	}
+	// (1c'') long mantissas under a shared scale: the least magnitude fixes a
+	// prefix, another value is 1e0 .. 1e22 times larger, so that more digits are
+	// printed than a binary64 quotient holds (same known finding under every
+	// decimal prefix but none; never under binary prefixes)
+	nlong := 25
+	if thorough {
+		nlong = 600
+	}
+	for cls := 0; cls <= 1; cls++ {
+		exps := []int{12, 9, 6, 3, 0, -3, -6, -9}
+		if cls == 1 {
+			exps = []int{40, 30, 20, 10, 0}
+		}
+		for _, e := range exps {
+			for i := 0; i < nlong; i++ {
+				mn := (1 + 8*rq.Float()) * c10Factor(cls, e) * []float64{1, 10, 100}[rq.Intn(3)]
+				big := mn * math.Pow(10, rq.Float()*22)
+				vals := []float64{mn, big}
+				if rq.Chance(0.3) {
+					vals = []float64{-big, 0, mn}
+				}
+				c10CommonCase(o, vals, cls, "long-mantissa")
+			}
+		}
+	}
+
+	// NaN in every position of a multiset (the property is about finite magnitudes;
+	// corr_ok ties the code to the model: a NaN counts only as the first non-zero value)
+	nan := math.NaN()
+	for cls := 0; cls <= 1; cls++ {
+		for _, vals := range [][]float64{{5, nan}, {nan, 5}, {0, nan, 3}, {0, 3, nan}, {-2, nan, 0, 7e-7}, {nan, nan}, {0, nan}, {2048, -nan, 1e9}} {
+			c10CommonCase(o, vals, cls, "nan-position")
+		}
+	}
+	// zeros and negative values in every position (a shared scale ignores sign and zeros)
+	for cls := 0; cls <= 1; cls++ {
+		for _, vals := range [][]float64{{0, 5, -3}, {-3, 0, 5}, {5, -3, 0}, {-1e-7, 0, 0, 2}, {0, 0, -4096}, {-2e6, -3e3, -5}} {
+			c10CommonCase(o, vals, cls, "zero-negative-position")
+		}
+	}
+
 	// (2) arbitrary scalers
 	nf := 900
 	if thorough {
@@ -440,7 +709,9 @@ func genC10(o *hx.Out, r *hx.Rng, tier string, replay string) error {
 	}
 
 	// (3) ClassOf
-	toks := []string{"B", "MB", "bytes", "ns", "op", "s", "sec", "KB", "b", "Bytes", "BB", "B2", "GB", "byte", "allocs", "é", "\xff", "\xe2\x80", "\xc2", "B\xc2", "\xe2\x80B"}
+	toks := []string{"B", "MB", "bytes", "ns", "op", "s", "sec", "KB", "b", "Bytes", "BB", "B2", "GB", "byte", "allocs", "é", "\xff", "\xe2\x80", "\xc2", "B\xc2", "\xe2\x80B",
+		// other spellings of bytes (known finding C10_classof_byte_spellings when alone in the numerator) and near misses
+		"kB", "TB", "PB", "EB", "KiB", "MiB", "GiB", "TiB", "PiB", "EiB", "Byte", "kb", "Kib", "MBs", "iB", "mB", "BYTES"}
 	seps := []string{"/", "*", "-", " ", "\t", "\n", "\v", "\f", "\r", "\u0085", "\u00a0", "\u1680", "\u2000", "\u2003", "\u2007", "\u200a",
 		"\u2028", "\u2029", "\u202f", "\u205f", "\u3000",
 		// not separators: zero-width space, Mongolian vowel separator, micro sign, hyphen U+2010, soft hyphen, U+200B..D, bare continuation bytes
@@ -495,5 +766,28 @@ func genC10(o *hx.Out, r *hx.Rng, tier string, replay string) error {
 		return err
 	}
 	defer os.RemoveAll(dir)
-	return c16GenRowScale(o, r, tier, dir, 4, false)
+	if err := c16GenRowScale(o, r, tier, dir, 4, false); err != nil {
+		return err
+	}
+	// rows of a real table on which the rounding of the quotient shows (known finding
+	// C10_quotient_rounded_before_printing): 0.10105 sec prints as 101.0m; a row that
+	// shares the scale of 4940.7 prints 7.335123946664616e17 with the quotient's digits
+	fl0 := bsFlags{alpha: -1, confidence: -1}
+	for _, w := range []struct{ unit, a, b string }{
+		{"sec/op", "0.10105", "0.10125"},
+		{"sec/op", "0.010005", "0.5"},
+		{"widgets", "4940.706476680601", "7.335123946664616e17"},
+		{"B/op", "4940.706476680601", "7.335123946664616e17"}, // binary prefixes: exact, not tagged
+	} {
+		var in bsInput
+		for f, val := range []string{w.a, w.b} {
+			in.Files = append(in.Files, bsFile{Name: fmt.Sprintf("f%d.txt", f), Label: []string{"old", "new"}[f],
+				Content: fmt.Sprintf("BenchmarkR0 1 %s %s\nBenchmarkR0 1 %s %s\n", val, w.unit, val, w.unit)})
+		}
+		in.Flags = fl0.args()
+		if _, err := c16RunRowScale(o, dir, in, fl0, 4, "quotient-rounding-witness"); err != nil {
+			return err
+		}
+	}
+	return nil
 }
